@@ -1354,6 +1354,8 @@ class ListNode(SyntaxNodeBase):
                     self._nodes.append(node)
             else:
                 self._nodes.append(node)
+        for shortcut in self._shortcuts:
+            shortcut._remember_interpolation()
         end = self._nodes[-1]
         # pop off final shortcut if it's a jump the user left off
         if (
@@ -1409,28 +1411,29 @@ class ListNode(SyntaxNodeBase):
         for i, value in enumerate(new_vals_cache.values()):
             # found a new shortcut
             if isinstance(value, ShortcutNode):
-                # shortcuts bumped up against each other
-                if shortcut is not None:
-                    last_end = i - 1
-                shortcut = value
-                if try_expansion(shortcut, new_vals[i]):
+                # it would end the shortcut that is being expanded ("bumped up against each other")
+                bumped_end = i - 1 if shortcut is not None else last_end
+                if value.consume_edge_node(
+                    new_vals[i], 1, i == bumped_end + 1 and bumped_end != 0
+                ):
+                    last_end = bumped_end
+                    shortcut = value
                     try_reverse_expansion(shortcut, i, last_end)
-                else:
-                    # the shortcut is dropped: what stood behind it (blanks, line breaks, comments)
-                    # stays behind the value that takes its place
-                    self._inherit_padding(new_vals[i], shortcut)
+                    continue
+                # the shortcut is dropped: what stood behind it (blanks, line breaks, comments)
+                # stays behind the value that takes its place, and the pass goes on as if no
+                # shortcut had been bound here (so that rebuilding the list again, when the dropped
+                # shortcut is gone, gives the same list)
+                self._inherit_padding(new_vals[i], value)
+                new_vals_cache[id(new_vals[i])] = new_vals[i]
+            # it is a value to expand
+            if shortcut is not None:
+                if not try_expansion(shortcut, new_vals[i]):
+                    last_end = i - 1
                     shortcut = None
-                    # the value may have become a jump, which no value node can print
                     check_for_orphan_jump(new_vals[i])
-            # otherwise it is actually a value to expand as well
             else:
-                if shortcut is not None:
-                    if not try_expansion(shortcut, new_vals[i]):
-                        last_end = i - 1
-                        shortcut = None
-                        check_for_orphan_jump(new_vals[i])
-                else:
-                    check_for_orphan_jump(new_vals[i])
+                check_for_orphan_jump(new_vals[i])
 
     def _keep_own_nodes(self, new_vals):
         """
@@ -1881,6 +1884,26 @@ class ShortcutNode(ListNode):
         self._spacing = spacing
         # the closing number is the last symbol of every interpolate production
         self.append(p[-1])
+
+    def _remember_interpolation(self):
+        """
+        Makes the run this interpolation covers now the one it is recognized by the next time the list is rebuilt.
+
+        Without this a run that grew or shrank on re-compression is not found again
+        (``_begin``, ``_end`` and ``_spacing`` still described the parsed run), and a second write differs from the first.
+        """
+        if self._type not in {Shortcuts.INTERPOLATE, Shortcuts.LOG_INTERPOLATE}:
+            return
+        nodes = list(self.nodes)
+        if len(nodes) < 2 or any(n.value is None for n in nodes):
+            return
+        begin, end = nodes[0].value, nodes[-1].value
+        if self._type == Shortcuts.LOG_INTERPOLATE:
+            if begin <= 0 or end <= 0:
+                return
+            begin, end = math.log(begin, 10), math.log(end, 10)
+        self._begin, self._end = begin, end
+        self._spacing = (end - begin) / (len(nodes) - 1)
 
     def _can_consume_node(self, node, direction, last_edge_shortcut=False):
         """
